@@ -71,7 +71,7 @@ pub assume_specification[ ::std::thread::panicking ]() -> (r: bool);
 //@check_struct file=actix-server/src/worker.rs name=WorkerHandleAccept fields=idx,conn_tx,counter
 //@extract_type file=actix-server/src/worker.rs item="struct WorkerHandleAccept"
 impl WorkerHandleAccept {
-//@extract file=actix-server/src/worker.rs item="impl WorkerHandleAccept / fn idx" ret=r props=C08 name=worker::WorkerHandleAccept::idx
+//@extract file=actix-server/src/worker.rs item="impl WorkerHandleAccept / fn idx" ret=r props=C08,C04 name=worker::WorkerHandleAccept::idx
 //@spec
     ensures r == self.idx,
 //@end
@@ -85,7 +85,7 @@ impl WorkerHandleAccept {
         r matches Err(c) ==> c == conn,
         r.is_ok() ==> self.conn_tx.sent_in_call() == Some(conn),
 //@end
-//@extract file=actix-server/src/worker.rs item="impl WorkerHandleAccept / fn inc_counter" ret=r props=C02,C03 name=worker::WorkerHandleAccept::inc_counter
+//@extract file=actix-server/src/worker.rs item="impl WorkerHandleAccept / fn inc_counter" ret=r props=C02,C03,C04 name=worker::WorkerHandleAccept::inc_counter
 //@spec
     ensures r == self.counter.inc_result(),   // [C02] it is THIS worker's counter that is incremented
 //@end
@@ -118,7 +118,7 @@ self.clone_()
 }
 
 impl WorkerCounterGuard {
-//@extract file=actix-server/src/worker.rs item="impl Drop for WorkerCounterGuard / fn drop" props=C02,C03,C08 name=worker::WorkerCounterGuard::drop trace_calls=wake
+//@extract file=actix-server/src/worker.rs item="impl Drop for WorkerCounterGuard / fn drop" props=C02,C03,C08,C04 name=worker::WorkerCounterGuard::drop trace_calls=wake
 //@spec
     requires true,
 //@insert fn_exit=1
